@@ -146,4 +146,20 @@ let run (f : string array) : string option =
      | Some (Some s) -> Some (tab [hex s; "-"]))
   | "base" ->
     let b = ref_base (unhex f.(2)) in Some (Printf.sprintf "0:%d" (List.length b))
+  | "eq" ->
+    let a = unhex f.(2) and b = unhex f.(3) in
+    let k = f.(1) in
+    let key_kind = (match k with "scheme" | "port" -> Some raw_key | "usegment" | "isegment" | "uhost" | "ihost" | "uuserinfo" | "iuserinfo" | "uquery" | "iquery" | "ufragment" | "ifragment" -> Some pct_key | _ -> None) in
+    let (e, c, h) = (match k, key_kind with
+      | _, Some key -> (eq_key key a b, cmp_key key a b, (if k = "scheme" || k = "port" then hash_raw a else hash_pct a))
+      | ("uri" | "uriref" | "iri" | "iriref"), _ -> (eq_ref a b, cmp_ref a b, hash_ref a)
+      | ("uauthority" | "iauthority"), _ -> (eq_authority a b, cmp_authority a b, hash_authority a)
+      | ("upath" | "ipath"), _ -> (eq_path a b, cmp_path a b, hash_path a)
+      | _ -> failwith "kind") in
+    let sb = (function Some true -> "1" | Some false -> "0" | None -> "P") in
+    let sc = (function Some Lt -> "L" | Some Eq -> "E" | Some Gt -> "G" | None -> "P") in
+    let tok = (function HU8 n -> "u8." ^ string_of_int (int_of_n n) | HIsize n -> "is." ^ string_of_int (int_of_n n)
+                      | HUsize n -> "us." ^ string_of_int (int_of_n n) | HBytes s -> "b" ^ hex s) in
+    let sh = (match h with Some l -> comma (List.map tok l) | None -> "PANIC") in
+    Some (tab [sb e; sc c; sh])
   | _ -> None
